@@ -24,6 +24,8 @@ _EXTRAS = {}
 
 
 def units(pid):
+    if pid == 'C08' and not _UNITS.get('C08_dyn_done'):
+        _c08_dynamic()
     return _UNITS.get(pid, [])
 
 
@@ -656,5 +658,52 @@ U('C07', 'c07.sin_angle_aprox', SIN_APROX, None, None, cxx='fixedmath::sin_angle
 U('C07', 'c07.cos_angle_aprox', COS_APROX, None, None, cxx='fixedmath::cos_angle_aprox($1)', ub_only=True, backends=('sat', 'kissat'), timeout=600)
 U('C07', 'c07.sqrt_aprox', SQRT_APROX, None, None, cxx='fixedmath::sqrt_aprox($1)', **UB)
 U('C07', 'c07.hypot_aprox', '_ZN9fixedmath11hypot_aproxENS_7fixed_tES0_', None, None, cxx='fixedmath::hypot_aprox($1,$2)', **HEAVY)
+
+# ----------------------------------------------------------------------------- C08
+prop('C08', 'other',
+     'Reduction to source-level facts that ARE proved: (1) bit-identical results across compilers / optimisation levels / '
+     'standards / constant evaluation follow from C07 (no undefined behaviour on the whole valid domain, so every '
+     'conforming evaluation yields the same value), from the absence of evaluation-order dependence (the extractor '
+     'reports every call argument with a side effect: none), and from the configuration-dependent source text being '
+     'equivalent: the C++17 fall-backs cxx20::cmp_* and cxx20::countl_zero are proved equal to the ISO specification '
+     'of the std:: functions that replace them from C++20 on (all instantiations the library uses); (2) a call that '
+     'returns at run time is UB-free (C07, abacus configuration) and therefore a constant expression provided its '
+     'callees are constexpr -- checked by compiling a battery of constexpr initialisers with both compilers under '
+     'c++17/20/2b; (3) the two sqrt algorithms differ by at most one ulp: INT lemma over the floor-root contract '
+     '(proved) and the one-ulp contract of the std::sqrt path (assumed). What a particular compiler binary emits cannot '
+     'be decided deductively; a differential battery (2 compilers x 3-4 levels x 3 standards, identical digests, '
+     'constexpr == run time) is the labelled stand-in.',
+     technique='reduction to C07 + contracts on the configuration-dependent fall-backs + INT lemma; differential compile/run battery as stand-in',
+     assumptions=['GCC and Clang implement ISO C++ and IEEE-754 faithfully for programs without undefined behaviour', '-ffp-contract=off / no x87: double arithmetic of the double-operand operators is evaluated in binary64',
+                  'sqrt_std_math within one ulp (assumed contract of std::sqrt)'])
+U('C08', 'c08.sqrt_algos_within_1ulp', 'lem_c08_sqrt_algos', 'pre_c08_sqrt_algos', None, lemma=True, cxx='lem_c08_sqrt_algos($1,$2,$3)', **INTQ)
+
+
+def _c08_dynamic():
+    from vfx import core
+    _UNITS['C08_dyn_done'] = True
+    ast = core.get_ast('abacus')
+    import re
+    for mg, n in ast.fn_def_by_mangled.items():
+        q = ast.qualname.get(n['id'], '')
+        if q != 'cxx20':
+            continue
+        name = n.get('name')
+        ops = {'cmp_less': '<', 'cmp_greater': '>', 'cmp_less_equal': '<=', 'cmp_greater_equal': '>=', 'cmp_equal': '==', 'cmp_not_equal': '!='}
+        if name in ops:
+            U('C08', 'c08.fallback.%s.%s' % (name, mg[-12:]), mg, None, None, cxx=None,
+              ensures_extra=['__CPROVER_return_value == (((__int128)$1) %s ((__int128)$2))' % ops[name]])
+        elif name == 'countl_zero':
+            bits = {'h': 8, 't': 16, 'j': 32, 'm': 64}[re.search(r'countl_zeroI(.)E', mg).group(1)]
+            U('C08', 'c08.fallback.countl_zero.%d' % bits, mg, None, None, cxx=None,
+              ensures_extra=['$1 == 0 ? __CPROVER_return_value == %d : (__CPROVER_return_value >= 0 && __CPROVER_return_value < %d && ((unsigned long)$1 >> (%d - __CPROVER_return_value)) == 1ul)' % (bits, bits, bits - 1)])
+
+
+def c08_battery(tier, seed):
+    from vfx import c08
+    return c08.run(tier, seed)
+
+
+E('C08', c08_battery)
 
 NOT_APPLICABLE = {}
